@@ -16,7 +16,7 @@ def lexer_tables(ck, prog):
     out = {}
     ib = prog.body(LEXER + "identifier")
     ck.anchor(ib is not None, "Lexer::identifier not found")
-    tab, default = paths.str_table(ib, prog)
+    tab, default, _tb = paths.str_table_deep(ib, prog)
     kws = {}
     for lit, results in tab.items():
         r = _single(ck, "keyword '%s'" % lit, results)
@@ -28,7 +28,7 @@ def lexer_tables(ck, prog):
 
     bb = prog.body(LEXER + "bangoperator")
     ck.anchor(bb is not None, "Lexer::bangoperator not found")
-    tab, default = paths.str_table(bb, prog)
+    tab, default, _tb = paths.str_table_deep(bb, prog)
     ops = {}
     for lit, results in tab.items():
         r = _single(ck, "operator '%s'" % lit, results)
@@ -45,7 +45,7 @@ def lexer_tables(ck, prog):
 
     pb = prog.body(LEXER + "preprocessor")
     ck.anchor(pb is not None, "Lexer::preprocessor not found")
-    tab, default = paths.str_table(pb, prog)
+    tab, default, _tb = paths.str_table_deep(pb, prog)
     pps = {}
     for lit, results in tab.items():
         r = _single(ck, "directive '%s'" % lit, results)
